@@ -343,8 +343,8 @@ def _match(pattern, klass):
 
 
 def _exception_in_code_under_test(ex):
-    """An exception no replay anticipated. If it was RAISED INSIDE the package under test (innermost frame under
-    <tree>/src) in a call for which the specification predicts a result, the code misbehaved: that is reported as a
+    """An exception no replay anticipated. If it was raised INSIDE the package under test, or in a library the package called
+    (a frame under <tree>/src below the last harness frame), in a call for which the specification predicts a result, the code misbehaved: that is reported as a
     violation (on the unchanged tree no replay raises). Anything raised in the harness itself - including a call of a
     package function that does not exist any more or takes other arguments - stays a machinery failure."""
     import hashlib
@@ -352,14 +352,18 @@ def _exception_in_code_under_test(ex):
 
     tb = traceback.extract_tb(ex.__traceback__)
     src = os.path.realpath(os.path.join(REPO, "src")) + os.sep
-    if not tb or not os.path.realpath(tb[-1].filename).startswith(src):
+    ours = os.path.realpath(VERIF) + os.sep
+    idx = [i for i, f in enumerate(tb) if os.path.realpath(f.filename).startswith(ours)]
+    if not tb or not idx:
         return None
-    if not any(os.path.realpath(f.filename).startswith(os.path.realpath(VERIF) + os.sep) for f in tb):
+    # frames below the last harness frame: the exception was raised in the package, or in a library the package called
+    below = [f for f in tb[idx[-1] + 1:] if os.path.realpath(f.filename).startswith(src)]
+    if not below:
         return None
     prop = sys.argv[1] if len(sys.argv) > 1 else "unknown"
-    where = [f for f in tb if os.path.realpath(f.filename).startswith(os.path.realpath(VERIF) + os.sep)][-1]
+    where = tb[idx[-1]]
     what = "a replay for which the specification predicts a result raised %s: %s (in %s:%d, called from %s:%d)" % (
-        type(ex).__name__, str(ex)[:160], os.path.relpath(tb[-1].filename, REPO), tb[-1].lineno, os.path.relpath(where.filename, VERIF), where.lineno)
+        type(ex).__name__, str(ex)[:160], os.path.relpath(below[-1].filename, REPO), below[-1].lineno, os.path.relpath(where.filename, VERIF), where.lineno)
     d = os.path.join(REPLAYS, prop)
     os.makedirs(d, exist_ok=True)
     path = os.path.join(d, "exception_%s.json" % hashlib.sha1(what.encode()).hexdigest()[:12])
